@@ -7,14 +7,19 @@ appears as a completed item.
 
 Domain  : executions of (a) the mixed campaign of vp.harness.dialects_h (three P-code dialects, injected snippets, user
           control commands, live edits, cancel/force requests on offered items, a UOD command whose exec function raises),
+          cancel/force requests are also served while a tick is in its hardware read phase (the engine does not hold its lock
+          there; the clock has moved on 0.03 s since the tick time was taken) - the single-threaded equivalent of a request thread,
           (b) the method x control-schedule scenarios of C08/C09 (vp.harness.ctrl_scen), (c) the block/clock scenarios of
           C07 (tick increments 0 .. 5 s).  Tracking.get_runlog() is sampled after EVERY tick of every case.
 Oracle  : (P) producible     get_runlog() does not raise            runlog-raised:<exc>:<conclusive state>><state recorded after it>
+                                                                     runlog-raised:<exc>:state-time-out-of-order
           (S) sorted         items ordered by start                  unsorted
           (I) ids            item ids pairwise distinct              duplicate-id:<names of the two items' instructions>
           (T) times          end is None or end >= start             ends-before-start
           (C) conclusive     state in completed|failed|cancelled =>  end set, not cancellable, not forcible
                                                                      conclusive:<state>:<no-end|cancellable|forcible joined by +>
+                                                                     conclusive:command-instance-adopted-after-live-edit (flaw seen after an
+                                                                     accepted live edit: consequence of the merge re-running the method)
                                                                      conclusive:booked-on-newer-invocation (an earlier invocation of the
                                                                      same line is still 'started')
           (F) completed      a method line with a unique payload (Mark, Quick, Set, Flow, Slow, Block, Notify as rendered by
@@ -139,7 +144,8 @@ def judge(case, c: D.Campaign, viol, info):
                 elif e[4] == "finalize":
                     finalized.add(e[3])
         if r.runlog_exc is not None:
-            viol("runlog-raised:%s:%s" % (type(r.runlog_exc).__name__, r.runlog_pat),
+            pat = "state-time-out-of-order" if "out of order" in str(r.runlog_exc) else r.runlog_pat
+            viol("runlog-raised:%s:%s" % (type(r.runlog_exc).__name__, pat),
                  "tick %d: get_runlog() raised %r" % (r.no, r.runlog_exc))
             info["runlog-raised"] = 1
             continue
@@ -173,6 +179,11 @@ def judge(case, c: D.Campaign, viol, info):
                         # mechanism: an earlier invocation of the same instruction never concluded while this newer one is conclusive
                         # and goes on - the conclusive state of the earlier invocation was booked on the newer one
                         sig = "conclusive:booked-on-newer-invocation"
+                    elif r.merged and "no-end" not in flaws:
+                        # after an accepted live edit the method is run again from the top (recorded finding of the merge) while the
+                        # commands of the pre-edit run keep executing: the re-issued line adopts the still running command instance,
+                        # its completion concludes the new item, then the line's own command starts
+                        sig = "conclusive:command-instance-adopted-after-live-edit"
                     viol(sig, "tick %d: item %r (id ..%s) is %s but %s"
                          % (r.no, name, _id[-4:], state, ", ".join({"no-end": "has no end time", "cancellable": "is still cancellable",
                                                                     "forcible": "is still forcible"}[w] for w in flaws)
